@@ -7,8 +7,23 @@ import os, random, json, time, shutil, subprocess, re
 FL = {"di": ("digraph", True), "sdi": ("sync_digraph", True), "un": ("ungraph", False), "sun": ("sync_ungraph", False)}
 
 
-def gen_invocation(rng, form, small):
+def gen_invocation(rng, form, small, large=False):
     """returns listed = [((k, v), [(t, e), ...] or None)], possibly naming an unlisted key"""
+    if large:
+        # long invocations (30-70 edges) in which a few nodes are the target of many listed edges
+        n = rng.randint(8, 14)
+        keys = list(range(n))
+        rng.shuffle(keys)
+        hot = keys[:3]
+        listed = []
+        for k in keys:
+            v = rng.randint(-2, 3) if form in (2, 4) else 0
+            edges = []
+            for _ in range(rng.randint(2, 6)):
+                t = rng.choice(hot) if rng.random() < 0.5 else rng.choice(keys)
+                edges.append((t, rng.randint(0, 99) if form in (3, 4) else 0))
+            listed.append(((k, v), edges))
+        return listed, None
     n = rng.choice([0, 1, 1, 2, 3, 3, 4]) if small else rng.randint(0, 7)
     keys = list(range(n))
     rng.shuffle(keys)
@@ -210,8 +225,8 @@ def generate(root, seed, per_form, small=True):
             nty = "i64" if form in (2, 4) else "()"
             ety = "u32" if form in (3, 4) else "()"
             dn = f'dump_{nty.strip("()") or "u"}_{ety.strip("()") or "u"}'
-            for _ in range(per_form):
-                listed, bad = gen_invocation(rng, form, small)
+            for j in range(per_form):
+                listed, bad = gen_invocation(rng, form, small, large=(j % 8 == 7))
                 order = []
                 for (k, _), _e in listed:
                     if k not in order:
@@ -356,7 +371,7 @@ def custom(C, pid, tier, seed):
     if broken and not violations:
         path = C.write_replay(pid, broken[0][0], "; ".join(w for _, w in broken), ["-- " + broken[0][1][:300]], {"seed": seed, "tier": tier})
         violations.append((path, " no-failing-input-found"))
-    cov.update({"evaluations": n_lines, "distinct_nontrivial": n_cases, "rule": "seeded generator: 4 macros x 4 signature forms x N invocations (random node lists incl. repeated keys, `=>` without list, empty lists, self-loops, repeated edges, forward references, one unlisted key in ~12%), plus the empty invocation and the *_node!/*_connect! helpers; compiled against the working tree, one function per invocation; distinct by (flavour, index).",
+    cov.update({"evaluations": n_lines, "distinct_nontrivial": n_cases, "rule": "seeded generator: 4 macros x 4 signature forms x N invocations (random node lists incl. repeated keys, every 8th invocation long (8-14 nodes, 30-70 edges, a few nodes the target of many), `=>` without list, empty lists, self-loops, repeated edges, forward references, one unlisted key in ~12%), plus the empty invocation and the *_node!/*_connect! helpers; compiled against the working tree, one function per invocation; distinct by (flavour, index).",
                 "samples": samples or ["(none)"], "traces_validated_against_impl": n_cases, "distribution": dist,
                 "correspondence_mismatches": mism_total, "oracle_failures": fails_total, "broken_obligations": [w for _, w in broken]})
     ev["violations"] = len(violations)
